@@ -178,6 +178,8 @@ def _chunk_cases(task):
     with tempfile.TemporaryDirectory(dir=BUILD) as td:
         for ci, c in cases:
             R = Rendering("identity", 1.0) if ci % 2 == 0 else Rendering("scaled", 1.375)
+            if c["name"][1] == "fine":
+                R = Rendering("micro", 1e-6)
             try:
                 with contextlib.redirect_stderr(io.StringIO()):
                     obj = render(c["K"], R)
